@@ -146,6 +146,7 @@ func extractPlan(p *Prog) (*scanPlan, error) {
 	}
 	plan := &scanPlan{Fn: norm}
 	id := norm.Params[1]
+	recvName, idName := "param:"+norm.Params[0].Name(), "param:"+norm.Params[1].Name()
 	fb := newBoundsProver(p, sharedEngineLite(p)).forFn(norm)
 	type site struct {
 		c     *ssa.Call
@@ -266,89 +267,42 @@ func extractPlan(p *Prog) (*scanPlan, error) {
 		default:
 			return nil, fmt.Errorf("%s: unrecognised argument transform %T", p.pos(c.Pos()), arg)
 		}
-		// guards
-		for cf := range fb.facts[c.Block().Index] {
-			if !cf.pol {
-				if k, ok := notAfterGuard(fb, norm, cf.c); ok {
-					at.NotAfter = k
+		// guards: the literals of the path condition of this attempt (conditions of the dominating
+		// branches, boolean helpers inlined), each of which must be one the plan models
+		classify := func(blk *ssa.BasicBlock) error {
+			for _, l := range pathLiterals(p, norm, blk) {
+				kind, val := classifyPlanLiteral(l, recvName, idName)
+				switch kind {
+				case "ignore":
+				case "needSuffix":
+					at.NeedSuffix = val
+				case "needNext":
+					at.NeedNext = val
+				case "notAfter":
+					at.NotAfter = val
+				default:
+					return fmt.Errorf("%s: the attempt depends on a condition the plan does not model: %s", p.pos(c.Pos()), l.String())
 				}
-				continue
-			}
-			switch g := cf.c.(type) {
-			case *ssa.Call:
-				if g.Call.StaticCallee() != nil && g.Call.StaticCallee().String() == "strings.HasSuffix" && g.Call.Args[0] == ssa.Value(id) {
-					if sfx, ok := constString(g.Call.Args[1]); ok {
-						at.NeedSuffix = sfx
-					}
-				}
-			case *ssa.BinOp:
-				if g.Op == token.EQL {
-					for _, pair := range [][2]ssa.Value{{g.X, g.Y}, {g.Y, g.X}} {
-						if s, ok := constString(pair[1]); ok {
-							if _, isSl := pair[0].(*ssa.Slice); isSl {
-								at.NeedNext = s
-							}
-						}
-					}
-				}
-			}
-		}
-		// every condition on the way to this attempt and to its success must be one the plan models
-		checkFacts := func(blk *ssa.BasicBlock) error {
-			for cf := range fb.facts[blk.Index] {
-				switch g := cf.c.(type) {
-				case *ssa.Extract:
-					if cut, ok := g.Tuple.(*ssa.Call); ok && g.Index == 1 && cut.Call.StaticCallee() != nil && cut.Call.StaticCallee().String() == "strings.CutSuffix" && cut.Call.Args[0] == ssa.Value(id) {
-						continue
-					}
-				case *ssa.Call:
-					callee := g.Call.StaticCallee()
-					if callee != nil && callee.String() == "strings.HasSuffix" && g.Call.Args[0] == ssa.Value(id) {
-						continue
-					}
-					if callee != nil && callee.Name() == "hasMore" {
-						continue
-					}
-					if _, ok := notAfterGuard(fb, norm, cf.c); ok && !cf.pol {
-						continue
-					}
-				case *ssa.BinOp:
-					// result of a lookup compared with nil
-					isLookupNil := false
-					for _, op := range []ssa.Value{g.X, g.Y} {
-						if lc, ok := op.(*ssa.Call); ok && lc.Call.StaticCallee() != nil && p.InModule(lc.Call.StaticCallee()) && kindOf(lc.Type()) == KPtr {
-							isLookupNil = true
-						}
-					}
-					if isLookupNil && (g.Op == token.EQL || g.Op == token.NEQ) {
-						continue
-					}
-					if g.Op == token.EQL && cf.pol {
-						if _, isC := constString(g.Y); isC {
-							if _, isSl := g.X.(*ssa.Slice); isSl {
-								continue
-							}
-						}
-					}
-				}
-				return fmt.Errorf("%s: the attempt depends on a condition the plan does not model: %s", p.pos(c.Pos()), describeIdx(cf.c))
 			}
 			return nil
 		}
-		if err := checkFacts(c.Block()); err != nil {
+		if err := classify(c.Block()); err != nil {
 			return nil, err
 		}
 		for _, eb := range nonNilEdgeBlocks(c) {
-			if err := checkFacts(eb); err != nil {
+			if err := classify(eb); err != nil {
 				return nil, err
 			}
+		}
+		if at.Transform == "strip" && at.NeedSuffix != at.Suffix && len(at.NeedSuffix) > 0 && at.Suffix != "" {
+			// the strip length was matched to a HasSuffix fact of that length above; keep both
 		}
 		// the block that returns this attempt's token
 		returned := false
 		for _, rb := range norm.Blocks {
 			if ret, ok := rb.Instrs[len(rb.Instrs)-1].(*ssa.Return); ok && len(ret.Results) == 1 && ret.Results[0] == ssa.Value(c) {
 				returned = true
-				if err := checkFacts(rb); err != nil {
+				if err := classify(rb); err != nil {
 					return nil, err
 				}
 			}
@@ -363,6 +317,41 @@ func extractPlan(p *Prog) (*scanPlan, error) {
 					continue
 				}
 				for _, in := range b.Instrs {
+					// a helper method of the stream called on success: its writes are this attempt's effects
+					if hc, ok := in.(*ssa.Call); ok && hc != c {
+						if h := hc.Call.StaticCallee(); h != nil && p.InModule(h) && len(hc.Call.Args) > 0 && hc.Call.Args[0] == ssa.Value(norm.Params[0]) && len(h.Params) > 0 {
+							hfb := newBoundsProver(p, sharedEngineLite(p)).forFn(h)
+							for _, hb := range h.Blocks {
+								for _, hin := range hb.Instrs {
+									hst, ok := hin.(*ssa.Store)
+									if !ok {
+										continue
+									}
+									hfa, ok := hst.Addr.(*ssa.FieldAddr)
+									if !ok || hfa.X != ssa.Value(h.Params[0]) {
+										continue
+									}
+									switch {
+									case isStringType(hst.Val.Type()):
+										at.EmitPlus = rewritesSuffixToPlus(hst.Val)
+										if !at.EmitPlus {
+											return nil, fmt.Errorf("%s: buffer rewrite of an unrecognised form", p.pos(hst.Pos()))
+										}
+									case isIntType(hst.Val.Type()):
+										nv, ok1 := hfb.linOf(hst.Val, hst, 0)
+										cls := "fld:" + fieldOf(hfa).String()
+										old := linVar(fmt.Sprintf("mem(%s.%s@%s)", hfb.vid(hfa.X, hst), fieldOf(hfa).Field, hfb.versionAt(cls, hst)))
+										if ok1 {
+											d := nv.sub(old)
+											if d.isConst() && d.k.IsInt() && d.k.Sign() > 0 {
+												at.Consume = int(d.k.Num().Int64())
+											}
+										}
+									}
+								}
+							}
+						}
+					}
 					st, ok := in.(*ssa.Store)
 					if !ok {
 						continue
@@ -421,6 +410,104 @@ func extractPlan(p *Prog) (*scanPlan, error) {
 		plan.ExceptionRole = c.Val().ExactString()
 	}
 	return plan, nil
+}
+
+// pathLiterals: the conjunction of branch conditions under which block b of fn is reached, as literals
+// over provenance atoms (boolean helpers inlined, conjunctions flattened). A condition that does not
+// flatten into literals (the negative side of a conjunction) is returned as one opaque literal.
+func pathLiterals(p *Prog, fn *ssa.Function, b *ssa.BasicBlock) []*qf {
+	qz := &quantizer{p: p, elemVar: map[ssa.Value]string{}, inlineAll: true}
+	var out []*qf
+	var flat func(q *qf)
+	flat = func(q *qf) {
+		if q.Op == "and" {
+			for _, a := range q.Args {
+				flat(a)
+			}
+			return
+		}
+		if q.Op == "true" {
+			return
+		}
+		out = append(out, q)
+	}
+	for cur := b; cur != nil; cur = cur.Idom() {
+		d := cur.Idom()
+		if d == nil {
+			break
+		}
+		iff, ok := d.Instrs[len(d.Instrs)-1].(*ssa.If)
+		if !ok || len(d.Succs) != 2 {
+			continue
+		}
+		tdom := (d.Succs[0] == b || d.Succs[0].Dominates(b)) && len(d.Succs[0].Preds) == 1
+		fdom := (d.Succs[1] == b || d.Succs[1].Dominates(b)) && len(d.Succs[1].Preds) == 1
+		if tdom == fdom {
+			continue
+		}
+		f := normQF(qz.boolOf(iff.Cond, map[*ssa.Phi]*qf{}))
+		if fdom {
+			f = qNot(f)
+		}
+		flat(f)
+	}
+	return out
+}
+
+var (
+	litHasMoreRe  = regexp.MustCompile(`^\((.+)\.index < len\((.+)\.expression\)\)$`)
+	litNextStrRe  = regexp.MustCompile(`^\(("(?:[^"\\]|\\.)*") == (.+)\.expression\[(.+)\.index:\((.+)\.index \+ 1\)\]\)$`)
+	litNextByteRe = regexp.MustCompile(`^\((\d+) == (.+)\.expression\[(.+)\.index\]\)$`)
+	litAfterRe    = regexp.MustCompile(`^strings\.HasPrefix\((.+)\.expression\[\((.+)\.index \+ 1\):\], ("(?:[^"\\]|\\.)*")\)$`)
+	litSuffixRe   = regexp.MustCompile(`^strings\.HasSuffix\((.+), ("(?:[^"\\]|\\.)*")\)$`)
+	litCutRe      = regexp.MustCompile(`^strings\.CutSuffix\((.+), ("(?:[^"\\]|\\.)*")\)#1$`)
+	litNilRe      = regexp.MustCompile(`^\(nil == spdxexp\.[A-Za-z]+\(.*\)\)$`)
+)
+
+// classifyPlanLiteral: what a literal of an attempt's path condition means for the lookup plan.
+func classifyPlanLiteral(l *qf, recv, id string) (string, string) {
+	neg := false
+	a := l
+	if a.Op == "not" {
+		neg, a = true, a.Args[0]
+	}
+	if a.Op != "atom" {
+		return "", ""
+	}
+	s := a.Atom
+	unq := func(q string) string {
+		if u, err := strconv.Unquote(q); err == nil {
+			return u
+		}
+		return q
+	}
+	if m := litHasMoreRe.FindStringSubmatch(s); m != nil && m[1] == recv && m[2] == recv && !neg {
+		return "ignore", ""
+	}
+	if strings.HasSuffix(s, ".hasMore("+recv+")") && !neg {
+		return "ignore", ""
+	}
+	if m := litNextStrRe.FindStringSubmatch(s); m != nil && m[2] == recv && m[3] == recv && m[4] == recv && !neg {
+		return "needNext", unq(m[1])
+	}
+	if m := litNextByteRe.FindStringSubmatch(s); m != nil && m[2] == recv && m[3] == recv && !neg {
+		if n, err := strconv.Atoi(m[1]); err == nil && n > 0 && n < 128 {
+			return "needNext", string(rune(n))
+		}
+	}
+	if m := litAfterRe.FindStringSubmatch(s); m != nil && m[1] == recv && m[2] == recv && neg {
+		return "notAfter", unq(m[3])
+	}
+	if m := litSuffixRe.FindStringSubmatch(s); m != nil && m[1] == id && !neg {
+		return "needSuffix", unq(m[2])
+	}
+	if m := litCutRe.FindStringSubmatch(s); m != nil && m[1] == id && !neg {
+		return "needSuffix", unq(m[2])
+	}
+	if litNilRe.MatchString(s) {
+		return "ignore", "" // this attempt's lookup succeeded / an earlier attempt's lookup failed (the plan is sequential)
+	}
+	return "", ""
 }
 
 // plusSuffixes: the constants c such that a license token whose value ends in c gets hasPlus = true in the
